@@ -28,3 +28,18 @@ Theorem c16_expand_balanced :
 Proof. intros f d k d' Hf He.
   exact (proj2 (check_sound funs (proj2 c16_skeleton_checks) f d k d' Hf He)). Qed.
 Print Assumptions c16_expand_balanced.
+
+(* BEGIN PINS (tools/repin.py) *)
+From WTP Require Import Gen.GenPins.
+Module Pins.
+Import String.
+(* The models of this property were transcribed from: luaexec.py:call_lua_sandbox, core.py:Wtp.start_page.
+   Gen/GenPins.v holds the digests of these functions in the current source (translate/pins.py: syntax tree without
+   docstrings, comments and layout).  A different digest means that the model is no longer known to describe the
+   code; the check then reports the broken tie and looks for a failing input. *)
+Theorem c16_models_describe_the_current_source :
+  (pin_call_lua_sandbox, pin_start_page) = ("c45edfa1a1747165", "8dfb9666f50592b8")%string.
+Proof. reflexivity. Qed.
+Print Assumptions c16_models_describe_the_current_source.
+End Pins.
+(* END PINS *)
